@@ -122,7 +122,31 @@ def stateKey (n : Bytes) : Bytes := if normalize n = n then n else normalize n +
 /-- the rule before fix N: `normalizeFilename` alone (used only to state the old-rule collision) -/
 def oldKey (n : Bytes) : Bytes := normalize n
 
-def sumKey (t : Task) : Bytes := stateKey t.displayName
+/-- `%d`: the decimal digits of `n`, most significant first (fuel `f`; enough whenever `n < f`) -/
+def decF : Nat → Nat → Bytes
+  | 0, _ => []
+  | f + 1, n => if n < 10 then [48 + n] else decF f (n / 10) ++ [48 + n % 10]
+
+def dec (n : Nat) : Bytes := decF (n + 1) n
+
+/-- the string whose hash tags the checksum file of a LABELLED task (fix F8A):
+`fmt.Sprintf("%d:%s%s", len(t.Task), t.Task, t.Label)` — the length-prefixed pair, an injective
+encoding of (task name, label): `pairEnc_inj` (KeyLemmas). -/
+def pairEnc (name label : Bytes) : Bytes := dec name.length ++ 58 :: (name ++ label)
+
+/-- `checksumFilename` (fix F8A): the state of method checksum belongs to the PAIR (task name,
+label).  A task without label keeps `stateFilename(t.Task)`; a labelled one gets the normalised
+label, a `.` (46 — a character `stateFilename` never produces) and a TAG of the pair.  In the code
+the tag is 16 hex digits of `xxh3.HashString(pairEnc)`; the model's tag is `pairEnc` itself — the
+64-bit hash IDEALISED AS INJECTIVE, exactly as in `stateKey`.  `sumKey_inj` (KeyLemmas): equal keys ⇒
+equal task names and equal labels.  Before the fix the key was `stateKey t.displayName`
+(`oldSumKey`), shared by tasks with equal labels. -/
+def sumKey (t : Task) : Bytes :=
+  if t.label = [] then stateKey t.name else normalize t.label ++ 46 :: pairEnc t.name t.label
+
+/-- the rule before fix F8A: `stateFilename(t.Name())` (used only to state the old-rule collision) -/
+def oldSumKey (t : Task) : Bytes := stateKey t.displayName
+
 def tsKey (t : Task) : Bytes := stateKey t.name
 
 /-! ### sources, stream -/
